@@ -125,8 +125,11 @@ func c18ReadFaults(c *fw.Ctx, d corpusDoc, sample int) *fw.Outcome {
 	}
 	if d.Format == "stl" {
 		// every block boundary: a fault there must not be taken for the end of the file
-		for k := 1024; k <= limit; k += 128 {
-			offsets = append(offsets, k)
+		nb := (limit - 1024) / 128
+		for j := 0; j <= nb; j++ {
+			if nb <= 100 || j < 20 || j > nb-20 || c.R.P(60, nb) {
+				offsets = append(offsets, 1024+128*j)
+			}
 		}
 	}
 	for _, k := range offsets {
@@ -421,9 +424,9 @@ func c18Run(c *fw.Ctx) fw.Outcome {
 
 func init() {
 	fw.Register(&fw.Property{
-		ID:    "C18",
-		Level: "fault_enumeration",
-		Rule: "read faults: for documents of every format (generated by the C01-C06 generators; the last 6 are ~200 KiB) and every offset k in 0..len (every offset when the document has at most 300 bytes, else offsets 0..64, the last 64 and 300 random ones; for TTML up to the end of the root element) the harness reader delivers k bytes and then fails with a non-EOF error, once as (0, err) and once as (m>0, err) together with the last chunk; the reader must return a non-nil error (a reader that stopped reading before the fault is counted separately). write faults: for random rich cue lists and each of the 5 writers, the destination fails at every output offset (all offsets up to 3000 bytes, else 400 edge + 600 random), refusing the chunk or accepting a partial write; the writer must return a non-nil error; without a fault the sink must have received exactly the document. Plus lines of 2^16-100..2^20 bytes in srt/webvtt/ssa (error or complete parse), the file helpers (missing input, missing directory, EISDIR for every extension, ENOSPC via a symlink to /dev/full through Subtitles.Write and the CLI) and, in the thorough tier, strace ENOSPC injection on the CLI's output writes. distinct_nontrivial = distinct documents/lists; events count the faults injected.",
+		ID:          "C18",
+		Level:       "fault_enumeration",
+		Rule:        "read faults: for documents of every format (generated by the C01-C06 generators; the last 6 are ~200 KiB) and every offset k in 0..len (every offset when the document has at most 300 bytes, else offsets 0..64, the last 64 and 300 random ones; for TTML up to the end of the root element) the harness reader delivers k bytes and then fails with a non-EOF error, once as (0, err) and once as (m>0, err) together with the last chunk; the reader must return a non-nil error (a reader that stopped reading before the fault is counted separately). write faults: for random rich cue lists and each of the 5 writers, the destination fails at every output offset (all offsets up to 3000 bytes, else 400 edge + 600 random), refusing the chunk or accepting a partial write; the writer must return a non-nil error; without a fault the sink must have received exactly the document. Plus lines of 2^16-100..2^20 bytes in srt/webvtt/ssa (error or complete parse), the file helpers (missing input, missing directory, EISDIR for every extension, ENOSPC via a symlink to /dev/full through Subtitles.Write and the CLI) and, in the thorough tier, strace ENOSPC injection on the CLI's output writes. distinct_nontrivial = distinct documents/lists; events count the faults injected.",
 		Assumptions: []string{"a fault is an error other than io.EOF", "for TTML only faults before the end of the root element must be reported"},
 		Cases:       func(tier string) int64 { return 2*tierN(tier, 18, 360) + 3 },
 		Anchors:     []string{"ReadFromSRT", "ReadFromWebVTT", "ReadFromSSAWithOptions", "readNBytes", "ReadFromTTML", "ReadFromTeletext", "WriteToSRT", "WriteToWebVTT", "WriteToSSA", "WriteToSTL", "WriteToTTML", "Open", "Subtitles.Write"},
